@@ -16,7 +16,7 @@ DRIVER = "shootmodel_det"
 
 MANIFEST = dict(
     text="Lean 4 theorems: every Go map iteration of the generator is modelled with an explicit iteration-order oracle and the composed run is shown independent of it on well-formed inputs (distinct-key writes, existential tests, collect-then-sort, single contributor, injective alias map, unique type name); the table of map-range sites and of clock/random/environment uses is regenerated from the CURRENT source and must be covered; generated files are read back only through the accessor-interface look-up of embedded types (stale independence, step level; fixpoint for map/enum/rest). Findings with witnesses: duplicate alias, message order, embedder-first non-fixpoint, stale all-in-one output. Tied to the code by byte comparison of the files written by the rebuilt shoot over run histories (fresh x N, repeat x N, delete+rerun, edit with stale output vs fresh, separate->all-in-one->back) at two absolute locations, for generated new/map/enum/rest packages.",
-    note="Lean kernel + standard axioms; model tied by the correspondence run and by Gen/Facts.lean (mapRangeSites, envSites). go/packages file order and go/types redeclaration handling are assumptions of the disk model (validated by the stale-output legs).",
+    note="The theorem C07_proposed_repair_fixpoint is about the PROPOSED repair notes/proposed/deps-first-and-shadow-aio.patch (not applied; codeRepair = noRepair), not about the code at HEAD. Lean kernel + standard axioms; model tied by the correspondence run and by Gen/Facts.lean (mapRangeSites, envSites). go/packages file order and go/types redeclaration handling are assumptions of the disk model (validated by the stale-output legs).",
     technique="Lean 4 proof (permutation invariance of folds, list induction) + differential run-history correspondence",
     design="5/C07")
 
